@@ -65,7 +65,7 @@ func RunDirect(rng *lib.Rng, tier string, sum *lib.Summary) {
 
 	nScripts, nScen, mutPer := 260, 45, 3
 	if tier == "thorough" {
-		nScripts, nScen = nScripts*25, nScen*25
+		nScripts, nScen = nScripts*15, nScen*15
 	}
 	for i := 0; i < nScripts; i++ {
 		g := dmNewGen(lib.NewRng(rng.U64()))
@@ -118,7 +118,7 @@ func RunDirect(rng *lib.Rng, tier string, sum *lib.Summary) {
 	// attachment operations on values of every kind (see direct_attachkinds.go)
 	nAK := 60
 	if tier == "thorough" {
-		nAK = 1500
+		nAK = 600
 	}
 	for _, sc := range dmAttachmentKindScripts(lib.NewRng(rng.U64()), nAK) {
 		d.mutTried++
@@ -127,6 +127,17 @@ func RunDirect(rng *lib.Rng, tier string, sum *lib.Summary) {
 			sum.Count("direct:attachment-kinds:accepted")
 		} else {
 			sum.Count("direct:attachment-kinds:rejected-or-duplicate")
+		}
+	}
+
+	// guard / if-let / loop / switch control-flow shapes (see direct_guardshapes.go), exhaustive
+	for _, sc := range dmGuardShapeScripts() {
+		d.mutTried++
+		if d.process(sc) {
+			d.mutAccepted++
+			sum.Count("direct:guard-shapes:accepted")
+		} else {
+			sum.Count("direct:guard-shapes:rejected-or-duplicate")
 		}
 	}
 
